@@ -25,6 +25,11 @@ def allTrue : Flags := ⟨true, true, true, true, true⟩
 /-- the tie: the repaired shape of `lazyRefs.h` (regenerated on every run) -/
 theorem C11_source_shape : fromSource = allTrue := rfl
 
+/-- the tie for fix C11-4: `loadInstance` resolves inverse attributes only when no instance is half-read (`_loadDepth == 0`;
+    regenerated from lazyInstMgr.cc).  The resolver model is a function of the completely loaded population; with resolution inside
+    the read recursion a referrer on a reference cycle through the instance would be inspected before its attributes are complete -/
+theorem C11_source_refs_deferred : refsDeferred = true := rfl
+
 def refB (x : Nat) (ia : InvAttr) (i : Inst) : Bool :=
   match i.attrs.find? (attrMatch allTrue ia) with
   | some a => a.refs.contains x
